@@ -225,15 +225,15 @@ def run(tier: str) -> int:
                 afb.atoms.calc.nvar = nn
                 afb.atoms.calc.publish(afb.atoms)
                 n_ = len(afb.atoms)
-                afb.atoms.calc.results["energies"] = np.array([-nn * REF * n_, nn * REF * n_]) + offset
+                afb.atoms.calc.results["energies"] = (np.array([-nn * REF * n_, nn * REF * n_]) + offset) if nn else np.full(3, offset)  # nn = 0: three identical members
                 rep.count(("energy-offset", fn, offset, nn))
                 afb.update_delta()
                 f_ = {0: 1.0, 1: 0.5}.get(nn)
                 if f_ is None:
                     f_ = (1 - np.tanh(2 * np.arctanh(0.5))) if fn == "tanh" else 0.25
                 want_ = 0.01 + 0.02 * f_
-                # (np.std of numbers of size 1e4 with a spread of 1e-2 is itself only good to ~1e-10 relative)
-                if not close(afb.delta, want_, tol=1e-8):
+                # (np.std of numbers of size 1e4 with a spread of 1e-2 is good to ~1e-11 relative: delta to ~1e-13)
+                if not close(afb.delta, want_, tol=5e-11):
                     rep.violation(f"curve:{fn}:energy:large-offset", f"committee energies {offset} -+ {nn} x reference x N: delta {np.asarray(afb.delta).ravel()[:1]}, expected {want_}", {"fn": fn, "offset": offset, "n": nn})
     # ---- the fallback: no committee data -> reference variance (midpoint), through step() as well -------
     for scheme in ("forces", "energy"):
